@@ -22,6 +22,10 @@
 #define ALN_RUN_IMPORT
 #include "aln_run.h"
 
+#ifdef KALIGN_VERIF
+#include "kalign_verif.h"
+#endif
+
 static void recursive_aln(struct msa* msa, struct aln_tasks*t, struct aln_param* ap, uint8_t* active, int c);
 /* static void recursive_aln_openMP(struct msa* msa, struct aln_tasks*t, struct aln_param* ap, uint8_t* active, int c); */
 /* static void recursive_aln_serial(struct msa* msa, struct aln_tasks*t, struct aln_param* ap, uint8_t* active, int c); */
@@ -128,6 +132,9 @@ int do_align(struct msa* msa,struct aln_tasks* t,struct aln_mem* m, int task_id)
         b = t->list[task_id]->b;
         c = t->list[task_id]->c;
 
+#ifdef KALIGN_VERIF
+        KALIGN_VERIF_EVENT(KV_MERGE_BEGIN, msa, t, a, b, c);
+#endif
         if(msa->nsip[a] == 1){
                 m->len_a = msa->sequences[a]->len;//  aln->sl[a];
                 RUN(make_profile_n(m->ap, msa->sequences[a]->s,m->len_a,&t->profile[a]));
@@ -270,6 +277,9 @@ int do_align(struct msa* msa,struct aln_tasks* t,struct aln_mem* m, int task_id)
                 g++;
         }
 
+#ifdef KALIGN_VERIF
+        KALIGN_VERIF_EVENT(KV_MERGE_END, msa, t, a, b, c);
+#endif
         return OK;
 ERROR:
         return FAIL;
